@@ -309,7 +309,7 @@ def run(ctx):
     # whole declarations of the schema family
     fam, g2 = fc.gen(ctx, with_mutants=False)
     fam = [c for c in fam if not c["schema"]["aux"]]
-    fam = fam[:4] if ctx.quick else fam[::3]
+    fam = fc.stratify(fam) if ctx.quick else fam[::3]
     nd = 0
     for i, c in enumerate(fam):
         s = os.path.join(wd, "f%d.exp" % i)
